@@ -49,7 +49,10 @@ def main():
         per = max(1, -(-a.nworkers // 8))
         while True:
             seed = a.base * 1_000_003 + i
-            slot = common.prior_index_for_seed(seed, a.prop) * per + (i % per)
+            if getattr(check, "MIX_PRIORS", False):
+                slot = i  # every worker sees every prior configuration (cross-prior process state)
+            else:
+                slot = common.prior_index_for_seed(seed, a.prop) * per + (i % per)
             if slot % a.nworkers == a.worker:
                 yield seed
             i += 1
@@ -78,6 +81,8 @@ def main():
             "known": [],
             "faults_fired": res.get("faults_fired", {}),
             "distinct": res.get("distinct", []),
+            "op_out_digests": res.get("op_out_digests"),
+            "plan_digest": res.get("plan_digest"),
         }
         if res.get("violations"):
             line["prelude"] = list(seeds_done)
